@@ -55,7 +55,7 @@ class C09(core.Check):
     isolate = True
     rule = (
         "one evaluation = one history on one long-lived Validator: first a slice of the alphabet (annotated entry x "
-        "parent chain from a root type x {no version, bound-0.1, bound-0.01, bound, bound+0.01, bound+0.1}), then "
+        "parent chain from a root type x {no version, bound-0.1, bound-0.01, bound, bound+0.01, bound+0.1, the neighbouring floats of the bound, bound*(1+-4e-10)}), then "
         "10-40 random operations (validate through the long-lived Validator / mappyfile.validate / a fresh one, "
         "get_versioned_schema / get_expanded_schema export, mappyfile.create) over versions 4.0-8.4 incl. ints, "
         "biased to revisit the same entry at another version; 30% of histories carry 1-2 schema-read faults. After "
@@ -146,7 +146,8 @@ class C09(core.Check):
                 ops.append({"op": "validate", "item": it, "version": v, "rel": rel, "via": via, "as_list": r.random() < 0.1, "np_version": r.random() < 0.06})
             elif c < 0.8:
                 ops.append({"op": "export", "schema": r.choice(EXPORT_NAMES + ([last["root"]] if last and last["root"] not in ("map", "layer") else [])),
-                            "version": r.choice([None, None] + GRID + [7, 8]) if r.random() < 0.7 else (last["bounds"][0] if last else 7.6)})
+                            "version": r.choice([None, None] + GRID + [7, 8]) if r.random() < 0.7 else (last["bounds"][0] if last else 7.6),
+                            "hold": r.random() < 0.3})
             else:
                 ops.append({"op": "create", "type": r.choice(["map", "layer", "class", "style", "label", "symbol", "web", "legend", "scalebar"]),
                             "version": r.choice([None] + GRID + [7, 8])})
@@ -211,6 +212,7 @@ class C09(core.Check):
         asked = {}
         steps = 0
         trace = []
+        held = []
         for op in case["ops"]:
             steps += 1
             name = op["op"]
@@ -253,6 +255,20 @@ class C09(core.Check):
                             violation = viol("long_lived_differs_from_fresh", op, {"long_lived": got[1], "fresh": fr[1]}, entry=it["entry"], root=root)
                             break
                         bump("checked.vs_fresh_validator")
+            elif name == "export" and op.get("hold") and ver and not case.get("faults"):
+                # the caller asks for the schema and puts it aside unread (to write it out later): what it holds when
+                # it finally reads it must still be the schema of THAT version, whatever was asked in between
+                sname = op["schema"]
+                with simfs.mounted(fs):
+                    try:
+                        obj_ = V.get_versioned_schema(ver, sname)  # (not looked at: core.call would read all of it)
+                    except Exception as e_:  # noqa: BLE001
+                        violation = viol("export_raised", op, core.exc_repr(e_), schema=sname)
+                        break
+                    asked.setdefault(sname, set()).add(ver)
+                bump("op.export_held")
+                held.append((op, sname, ver, obj_))
+                got = ("ok", "held", None)
             elif name == "export":
                 sname = op["schema"]
                 with simfs.mounted(fs):
@@ -304,6 +320,16 @@ class C09(core.Check):
                 for f in fs.fired_faults[fired_before:]:
                     bump(f"fault.{f['op']}_schema_{f['err']}")
                 bump("faulted_calls")
+        if not violation:
+            for op_, sname, ver, obj in held:
+                with simfs.mounted(fs):
+                    late = core.call(lambda: hashlib.sha256(json.dumps(obj, sort_keys=True, indent=1).encode()).hexdigest())
+                with simfs.mounted(clean):
+                    fr = core.call(lambda: self.export_digest(self.Validator(), sname, ver))
+                bump("checked.held_export_vs_fresh")
+                if late[:2] != fr[:2]:
+                    violation = viol("held_export_changed_by_later_calls", op_, {"held": late[1], "fresh": fr[1]}, schema=sname)
+                    break
         nontrivial = any(len(vs) >= 2 for vs in asked.values())
         ops_d = [{k: (v if k != "item" else [v["entry"], v["root"], v["chain"]]) for k, v in op.items()} for op in case["ops"]]
         return {"violation": violation, "digest": core.digest([ops_d, case.get("faults"), trace]), "nontrivial": nontrivial,
